@@ -99,6 +99,7 @@ def gen_case(ctx, rng):
     return {"shape": kind, "params": p, "loc": loc, "data": data, "ranking": ranking, "_np_scalars": rng.random() < 0.25,
             "_other_ctor_data": rng.random() < 0.35,
             "_int_params": int_params,
+            "_ask_twice": rng.random() < 0.3,
             # the ranked list as other code hands it over: sensor ids are often kept in narrow / unsigned integer arrays
             "_rank_dtype": rank_dtype,
             "_col_order": (rng.sample(["x", "y", "z", "f"], 4) if rng.random() < 0.5 else None)}
@@ -180,6 +181,16 @@ def run_real(case):
     dt = case.get("_rank_dtype")
     if dt and (not len(rk) or int(rk.max()) <= np.iinfo(dt).max):
         rk = rk.astype(dt)
+    if case.get("_ask_twice") and len(rk) >= 2:
+        # the same constraint object is first asked about an older ranking held in the very array (and with the very data object) that is
+        # then refreshed in place: the answer must be about the array's contents at the time of the call
+        target = rk.copy()
+        rk[:] = target[::-1]
+        try:
+            obj.get_constraint_indices(rk, data)
+        except Exception:
+            pass
+        rk[:] = target
     idx, rank = obj.get_constraint_indices(rk, data)
     return [int(i) for i in idx]
 
